@@ -885,6 +885,16 @@ func (hash *SexpHash) ShortName() string {
 }
 
 func (hash *SexpHash) SexpString(ps *PrintState) string {
+	// a hash can be stored inside itself; cut the cycle when printing.
+	if ps == nil {
+		ps = NewPrintState()
+	}
+	if ps.GetSeen(hash) {
+		return "{...}"
+	}
+	ps.SetSeen(hash, "SexpHash")
+	defer delete(ps.Seen, hash)
+
 	indInner := ""
 	indent := ps.GetIndent()
 	innerPs := ps.AddIndent(4) // generates a fresh new PrintState
